@@ -83,11 +83,12 @@ Record oinv := {
   o_enc : bool
 }.
 (* per connection: the invocations in order, and how ServeConn ended
-   (0 closed/nil, 1 closed/error, 2 left open/nil) *)
+   (0 closed/nil, 1 closed/error, 2 left open/nil, 4 the handler's panic came out of ServeConn,
+    connection not closed by it) *)
 Definition oconn := (list oinv * N)%type.
 
 Definition end_code (e : cend) : N :=
-  match e with EClosedOk => 0 | EClosedErr => 1 | EOpen => 2 | EPending => 3 end.
+  match e with EClosedOk => 0 | EClosedErr => 1 | EOpen => 2 | EPending => 3 | EPanic => 4 end.
 
 Fixpoint zlist_eqb (a b : list cmd) : bool :=
   match a, b with
